@@ -21,7 +21,7 @@ CLAIMED.update({
  "C05": ("type-level recomputation of the marshal and unmarshal field tables (encoding/json field resolution re-implemented over go/types) and comparison with the Schema struct; guard and post-dominance rules on the splice helpers",
          "Agreement of the writer's and the reader's keyword tables for every field, preservation of significant empty containers, exact boolean folding, unconditional purge of known names from Extra, integer keyword shadowing, const-null handling, exact JSON-name set. Not byte identity or value fidelity.", "4/C05"),
  "C17": ("type-level registry completeness; dominating guards in the pointer field lookup; constant tables of the escape replacers; guard analysis of the pointer walker (checked assertion, validity tests, both index bounds)",
-         "Every schema-bearing field is registered and addressable, ambiguous JSON names are special-cased before the last-writer-wins map, escape tables are RFC 6901's, failed lookups become errors, and no error of the resolution code is overwritten or dropped before it is looked at. Not which subschema a concrete pointer selects.", "4/C17"),
+         "Every schema-bearing field is registered and addressable, ambiguous JSON names are special-cased before the last-writer-wins map, escape tables are RFC 6901's, failed lookups become errors, exactly one leading slash is removed before the pointer is split, no error of the resolution code is overwritten or dropped before it is looked at, no error variable is returned where it is known to be nil. Not which subschema a concrete pointer selects.", "4/C17"),
  "C20": ("type-level registry completeness; sibling agreement on the three shapes across traversals; control-dependence of the clone write-backs; allocation-site freshness of cloned containers and elements",
          "The clone loop is total over schema-bearing fields, writes back only fresh containers filled with recursive clones, a nil container is produced only for a nil original, and the structure check rejects a shared Schema object. Not observed equality of marshaled output.", "4/C20"),
 })
@@ -30,16 +30,16 @@ CLAIMED.update({
  "C03": ("dominance of the two cache insertions over the descent into references; dominating miss-guards and key identity at the Loader call; must-pass-through of the side-table merge on every path from a foreign root to its use as a key; provenance of successful returns, of the lookup URI and of stored targets",
          "Bookkeeping shape of reference resolution for every topology: cache-before-recursion under both URIs, loader only on miss, foreign tables merged, no fallback target, base of the enclosing resource, per-occurrence resolution, anchors scoped to their base, BaseURI used as the root's base unless empty, no resolution error dropped. Not RFC 3986 itself nor the target of a concrete topology.", "4/C03"),
  "C06": ("push/pop discipline of the evaluation stack by dominance and defer analysis; write-effect analysis of the closure of Validate (no state survives a call); exclusive-outcome and guard analysis of the lexical/dynamic split; shape of the outermost-first search",
-         "The dynamic scope is a per-call stack pushed once and popped on every exit, nothing else is mutable or shared, resolution records lexical xor dynamic behaviour, and the search is outermost-first through base resources. Not the target selected for a concrete topology.", "4/C06"),
+         "The dynamic scope is a per-call stack pushed once and popped on every exit, nothing else is mutable or shared, resolution records lexical xor dynamic behaviour, and the search is outermost-first through base resources over the whole stack. Not the target selected for a concrete topology.", "4/C06"),
 })
 
 CLAIMED.update({
  "C08": ("sibling agreement between the type classifier and the number extractor (recogniser sets); accessor/setter pairing and exactness lint in the extractor; reflect-kind dataflow after the stripping loop and at every keyword group; key-provenance rule on reflect map accesses",
          "Representation independence as code shape: same numeric sources recognised by classifier and extractor, exact extraction, pointer/interface stripping in any nesting, keys converted to the map's key type, keyword groups guarded by (and covering) the right kinds, equality normalising wrappers, property names evaluated as Go strings, zero-means-missing only for struct instances, no fact about the instance computed only next to certain keywords, nilness treated alike by hasher and equality. Not verdict equality for concrete values.", "4/C08"),
  "C11": ("guard/dominance analysis of the equality function: numbers first through the exact extractor, exactness lint over the closure of Equal, reflect-kind dataflow at the kind-mismatch exit, length-before-elements and missing-key guards on every recursive call, kind sets at explicit panics",
-         "Structure of JSON equality decided for all inputs: exact numeric comparison first, number never equals non-number, wrappers stripped on both sides, arrays vs slices element-wise, lengths before elements, missing keys unequal, identity shortcuts after length tests, panics only outside the JSON domain, Go equality (Value.Equal, DeepEqual) only for bool and string kinds, the number extractor never answers not-a-number for a recognised number (one known finding: exponents big.Rat refuses). Not the algebraic laws.", "4/C11"),
+         "Structure of JSON equality decided for all inputs: exact numeric comparison first, number never equals non-number, wrappers stripped on both sides, arrays vs slices element-wise, lengths before elements, missing keys unequal, identity shortcuts after length tests, every recursion pairs a part of one operand with a part of the other, panics only outside the JSON domain, Go equality (Value.Equal, DeepEqual) only for bool and string kinds, the number extractor never answers not-a-number for a recognised number (one known finding: exponents big.Rat refuses). Not the algebraic laws.", "4/C11"),
  "C12": ("control dependence of the enum/const/uniqueItems failure exits on the equality function; must-pass-through of bucket recording; sibling agreement between hasher and equality via reflect-kind dataflow at every hash write; sort-before-use of map keys; def-use of the hash seed",
-         "enum/const/uniqueItems are decided by the equality function, every item is recorded and compared with its whole bucket, the hash is representation independent and deterministic for equal values, one seed per call. Includes the C11 equality clauses. Not collision behaviour.", "4/C12"),
+         "enum/const/uniqueItems are decided by the equality function, every item is recorded and compared with its whole bucket (two different positions), the hash is representation independent and deterministic for equal values, one seed per call. Includes the C11 equality clauses. Not collision behaviour.", "4/C12"),
 })
 
 CLAIMED.update({
@@ -53,7 +53,7 @@ CLAIMED.update({
  "C09": ("dominating-guard and skippability analysis of the struct path (closed objects, required), constant bounds table with allocation freshness, provenance of array length and element schemas, independence of the numeric keyword group from `type`",
          "Inferred schemas are tight in shape: every struct closed, required exactly under the two option tests, bounds equal to kind ranges and fresh, array length fixed, element schemas recursive, bounds enforced for nullable integers, plus the embedded-field, tag-name and name-conflict clauses of C04. Not agreement with the decoder.", "4/C09"),
  "C15": ("dominating guards of every instance mutation in the default applier (not-required, missing/present), provenance of inserted values, sibling agreement between applier and has-nested-defaults predicate, skippability and traversal analysis of default validation",
-         "Defaults are applied only to missing, non-required properties with fresh copies of the declared default (or containers under the predicate); present values are written back unchanged; default validation covers the full tree and can be skipped by nothing but the absence of a default. Not idempotence as an observation.", "4/C15"),
+         "Defaults are applied only to missing, non-required properties with fresh copies of the declared default (or containers under the predicate); present values are written back unchanged; default validation covers the full tree, can be skipped by nothing but the absence of a default and does not leave the walk on success; the required set is read from the schema's own side-table entry. Not idempotence as an observation.", "4/C15"),
  "C16": ("clone-provenance of every table/override schema entering the result; write-effect analysis of the closure of For; test-mark-defer discipline of the cycle set; order-insensitivity classifier; tag parser purity and option provenance; index-prefix comparison for promoted fields",
          "Isolation and determinism of inference: substituted schemas always cloned, no shallow copies, per-call table and cycle set, nothing shared is written, cycle mark removed on every exit, map iterations order-insensitive, tag options exact, order de-duplicated whenever a name can have been entered twice. Not full agreement with encoding/json's name resolution (only: decided by name and depth, shallower wins).", "4/C16"),
 })
@@ -65,7 +65,7 @@ CLAIMED.update({
 
 CLAIMED.update({
  "C10": ("inventory of explicit panics and assertions with reflect-kind dataflow at each; kind-precondition analysis of every partial reflect operation with call-site propagation; iterator-protocol reachability; nil-guard dominance for callback and (nil, nil) results; strongly connected components of the static call graph against a table of terminating shapes, each with its own checked obligation",
-         "Panic sites unreachable for JSON-shaped inputs or discharged by named rules, partial reflect operations guarded, iterators obey the yield protocol, callback and optional results nil-tested, every recursive component of a known terminating shape with its seen-set / cache / tree-check obligation, element-type walks bounded by a visited set, prefix slices guarded by a length comparison. Not the absence of all run-time panics.", "4/C10"),
+         "Panic sites unreachable for JSON-shaped inputs or discharged by named rules, partial reflect operations guarded, iterators obey the yield protocol, callback and optional results nil-tested, every recursive component of a known terminating shape with its seen-set / cache / tree-check obligation, element-type walks bounded by a visited set, prefix slices guarded by a length comparison, constant-index reads of strings and slices guarded by a length test. Not the absence of all run-time panics.", "4/C10"),
 })
 
 NOT_YET = "static clauses designed in DESIGN.md section 4 but the rule is not built yet in this session"
